@@ -40,25 +40,42 @@ def init():
                 out[name] = np.array([float(v.varValue) if hasattr(v, "varValue") and v.varValue is not None else (0.0 if hasattr(v, "varValue") else float(v)) for v in lst])
         return out
 
-    def w_h(self, c, t):
-        r = o_h(self, c, t)
+    def w_h(self, *a, **k):
+        r = o_h(self, *a, **k)
         if _P["cap"] is not None:
             _P["cap"]["lp"].append({"kind": "h", "consts": self.consts_for_optimizer, "tc": self.time_consts, "vals": values_of(r[1], self.NMONTHS), "obj": r[3], "mh": None})
         return r
 
-    def w_a(self, c, t, mh):
-        r = o_a(self, c, t, mh)
+    def w_a(self, *a, **k):
+        r = o_a(self, *a, **k)
+        mh = k.get("min_human_food_consumption", a[2] if len(a) > 2 else None)
         if _P["cap"] is not None:
             _P["cap"]["lp"].append({"kind": "a", "consts": self.consts_for_optimizer, "tc": self.time_consts, "vals": values_of(r[1], self.NMONTHS), "obj": r[3], "mh": mh})
         return r
     Optimizer.optimize_to_humans, Optimizer.optimize_feed_to_animals = w_h, w_a
 
+    o_run = Optimizer.run_optimizations_on_constraints
+
+    def w_run(self, *a, **k):
+        # the first-stage programme exactly as the model built it, before any solve: kept as matrices so that it can be
+        # solved by a second solver (separates formulation faults from the accuracy of the model's own solver)
+        if _P["cap"] is not None:
+            model = k.get("model", a[0] if a else None)
+            try:
+                _P["cap"]["models"].append(reflp.lp_of_pulp_model(model))
+            except Exception as e:      # never let the probe disturb the run
+                _P["cap"]["models"].append({"error": repr(e)[:200]})
+        return o_run(self, *a, **k)
+    Optimizer.run_optimizations_on_constraints = w_run
+
     o_init = Optimizer.__init__
 
-    def w_init(self, c, t):
+    def w_init(self, *a, **k):
         if _P["cap"] is not None and _P["cap"].get("want_inputs"):
+            c = k.get("consts_for_optimizer", a[0] if a else None)
+            t = k.get("time_consts", a[1] if len(a) > 1 else None)
             _P["cap"].setdefault("inputs", []).append((copy.deepcopy(c), copy.deepcopy(t)))
-        o_init(self, c, t)
+        o_init(self, *a, **k)
     Optimizer.__init__ = w_init
     _P["Optimizer_init"] = o_init
 
@@ -74,10 +91,13 @@ def init():
     cfm = pmod.CalculateFeedAndMeat
     cfm_init = cfm.__init__
 
-    def w_cfm(self, country_code, available_feed, available_grass, scenario, kcals_per_head_meat_dict, constants_inputs=None):
-        feed0 = np.array(available_feed.kcals, dtype=float).copy()
-        grass0 = np.array(available_grass.kcals, dtype=float).copy()
-        cfm_init(self, country_code, available_feed, available_grass, scenario, kcals_per_head_meat_dict, constants_inputs)
+    def w_cfm(self, *a, **k):
+        # tolerant of keyword/positional use: (country_code, available_feed, available_grass, scenario, ...)
+        feed = k.get("available_feed", a[1] if len(a) > 1 else None)
+        grass = k.get("available_grass", a[2] if len(a) > 2 else None)
+        feed0 = np.array(feed.kcals, dtype=float).copy()
+        grass0 = np.array(grass.kcals, dtype=float).copy()
+        cfm_init(self, *a, **k)
         if _P["cap"] is not None:
             _P["cap"]["herd"].append({"obj": self, "feed": feed0, "grass": grass0})
     cfm.__init__ = w_cfm
@@ -101,7 +121,7 @@ def init():
 def execute(iso, opts, title, want_inputs=False):
     """runs the real model; returns capture dict (with 'error' on failure)"""
     init()
-    cap = {"lp": [], "interp": [], "herd": [], "stdout": "", "error": None, "result": None, "want_inputs": want_inputs}
+    cap = {"lp": [], "models": [], "interp": [], "herd": [], "stdout": "", "error": None, "result": None, "want_inputs": want_inputs}
     _P["cap"] = cap
     o = copy.deepcopy(options.clean(opts))
     try:
@@ -152,19 +172,43 @@ def mon_c01_c02(cap, key, rp, want):
                 pins = {f: np.asarray(lp["mh"][f].in_units_bil_kcals_thou_tons_thou_tons_per_month().kcals, dtype=float)
                         for f in ("stored_food", "outdoor_crops", "meat", "methane_scp", "cellulosic_sugar", "seaweed")}
             status, ref = reflp.solve_reference(d, lp["kind"], pins)
-            if status in (1, 4):
-                stats["ref_unsolved"] = stats.get("ref_unsolved", 0) + 1     # oracle could not decide this instance: counted, never judged
-            elif status != 0:
-                stats["ref_infeasible"] += 1
-                v2.append(violation("reference_infeasible", k, "%s round %d: the model reports optimum %r but no physically feasible allocation exists (HiGHS status %d)"
-                                    % (key["iso3"], ri + 1, lp["obj"], status), rp))
-            else:
-                rel = abs(lp["obj"] - ref) / max(1.0, abs(ref), abs(lp["obj"]))
+            what = "percent fed" if lp["kind"] == "h" else "weighted feed+biofuel"
+            mstat, mval = (None, None)
+            if ri < len(cap["models"]) and "error" not in cap["models"][ri]:
+                mstat, mval = reflp.solve_matrix_lp(cap["models"][ri])
+            if status in (1, 4) or mstat in (None, 1, 4):
+                stats["ref_unsolved"] = stats.get("ref_unsolved", 0) + 1     # an oracle could not decide this instance: counted, never judged
+                continue
+            # (A) formulation: the model's own programme and the independent one, both solved by HiGHS
+            tolA = 1e-5
+            if (mstat == 0) != (status == 0) and lp["obj"] is not None:
+                # one of the two is infeasible although the model's solver returned a solution: decide with the solver's own
+                # feasibility tolerance (a band pinned around a -1e-7 value is infeasible only by noise)
+                if mstat != 0:
+                    mstat, mval = reflp.solve_matrix_lp(cap["models"][ri], relax=1e-6)
+                else:
+                    status, ref = reflp.solve_reference(d, lp["kind"], pins, relax=1e-6)
+                tolA = 1e-4
+                stats["borderline"] = stats.get("borderline", 0) + 1
+            if mstat == 0 and status == 0:
+                rel = abs(mval - ref) / max(1.0, abs(ref), abs(mval))
                 stats["max_rel"] = max(stats["max_rel"], rel)
-                if rel > 1e-5:
-                    v2.append(violation("optimum_matches_reference", k, "%s round %d (%s): model optimum %.8g, independent formulation %.8g (rel %.2e, %s)"
-                                        % (key["iso3"], ri + 1, "percent fed" if lp["kind"] == "h" else "weighted feed+biofuel", lp["obj"], ref, rel,
-                                           "overstated" if lp["obj"] > ref else "understated"), rp))
+                if rel > tolA:
+                    v2.append(violation("optimum_matches_reference", k, "%s round %d (%s): the model's programme has optimum %.9g, the independent formulation %.9g (rel %.2e, %s)"
+                                        % (key["iso3"], ri + 1, what, mval, ref, rel, "overstated" if mval > ref else "understated"), rp))
+            elif (mstat == 0) != (status == 0):
+                stats["ref_infeasible"] += 1
+                v2.append(violation("feasibility_matches_reference", k, "%s round %d (%s): the model's programme is %s (optimum %s) but the independent formulation is %s (optimum %s)"
+                                    % (key["iso3"], ri + 1, what, "feasible" if mstat == 0 else "infeasible", mval, "feasible" if status == 0 else "infeasible", ref), rp))
+            else:
+                stats["both_infeasible"] = stats.get("both_infeasible", 0) + 1
+            # (B) the figure the model reports (its own solver, CBC) against the optimum of its own programme
+            if mstat == 0:
+                relb = abs(lp["obj"] - mval) / max(1.0, abs(mval), abs(lp["obj"]))
+                stats["max_rel_cbc"] = max(stats.get("max_rel_cbc", 0.0), relb)
+                if relb > 1e-3:
+                    v2.append(violation("reported_optimum_is_lp_optimum", k, "%s round %d (%s): reported %.9g, optimum of the model's own programme %.9g (rel %.2e)"
+                                        % (key["iso3"], ri + 1, what, lp["obj"], mval, relb), rp))
     stats["tight"] = sorted(stats["tight"])
     return v1, v2, stats
 
@@ -477,7 +521,8 @@ def run_job(job):
             n_ok = min(len(cap["lp"]), len(cap["interp"])) if not cap["error"] else len(cap["lp"])
             v1, v2, s12 = mon_c01_c02(cap, key, rp, want)
             out["C01"], out["C02"] = v1, v2
-            st.update(lp=s12["lp"], tight=s12["tight"], max_rel=s12["max_rel"], ref_unsolved=s12.get("ref_unsolved", 0))
+            st.update(lp=s12["lp"], tight=s12["tight"], max_rel=s12["max_rel"], ref_unsolved=s12.get("ref_unsolved", 0),
+                      max_rel_cbc=s12.get("max_rel_cbc", 0.0), both_infeasible=s12.get("both_infeasible", 0), borderline=s12.get("borderline", 0))
             if not cap["error"]:
                 v3, s3 = mon_c03(cap, key, rp)
                 out["C03"] = v3
@@ -489,8 +534,11 @@ def run_job(job):
         import sys
         rdir = os.path.join(sys.modules["src.optimizer.interpret_results"].repo_root, "results")
         for f in os.listdir(rdir):
-            if f.startswith(title):
-                os.remove(os.path.join(rdir, f))
+            if f.startswith(title + "_"):
+                try:
+                    os.remove(os.path.join(rdir, f))
+                except FileNotFoundError:
+                    pass
     except Exception as e:
         st["harness_error"] = "%r %s" % (e, traceback.format_exc()[-500:])
     st["t"] = round(time.time() - t0, 2)
@@ -635,7 +683,10 @@ def coverage_for(pid, data):
         "traces_validated_against_impl": len(ok), "lp_instances": lp,
         "distinct_outcomes": len({json.dumps(s.get("heads")) for s in ok}),
         "controller_branches": dict(br), "runs_that_failed": sum(1 for s in ok if s.get("failed")),
-        "ledger_clauses_binding_somewhere": dict(tight), "reference_lp_unsolved_by_highs": sum(s.get("ref_unsolved", 0) for s in ok), "max_rel_gap_to_reference_lp": max([s.get("max_rel", 0.0) for s in ok] or [0.0]),
+        "ledger_clauses_binding_somewhere": dict(tight), "reference_lp_unsolved_by_highs": sum(s.get("ref_unsolved", 0) for s in ok),
+        "max_rel_gap_reported_vs_own_lp_optimum": max([s.get("max_rel_cbc", 0.0) for s in ok] or [0.0]),
+        "instances_infeasible_in_both_formulations": sum(s.get("both_infeasible", 0) for s in ok),
+        "instances_decided_with_solver_feasibility_tolerance": sum(s.get("borderline", 0) for s in ok), "max_rel_gap_to_reference_lp": max([s.get("max_rel", 0.0) for s in ok] or [0.0]),
         "bound": data["bound"], "cache": data["cache"], "engine_wall_s": data.get("wall_s"),
         "alphabet": "choice points: country row (164 + world), preset, option-family deviation(s); a state is one (execution, round, month) of a solved allocation; a transition the month step within a round",
         "samples": [s["key"] for s in ok[:2]] + [s["key"] for s in ok[-2:]],
